@@ -217,6 +217,23 @@ impl Node {
         idx
     }
 
+    /// Delivery without any barrier (engine `sched`: the service thread is parked by the gate
+    /// scheduler, a barrier through it would never return).  Verdict recorded in `deliveries`.
+    pub fn deliver_nowait(&self, block: &BlockView) -> usize {
+        let hash = block.hash();
+        let idx = {
+            let mut d = self.deliveries.lock().unwrap();
+            d.push(Delivery { hash: hash.clone(), result: None, superseded: false });
+            d.len() - 1
+        };
+        let dl = Arc::clone(&self.deliveries);
+        let cb = Box::new(move |r: VerifyResult| {
+            dl.lock().unwrap()[idx].result = Some(r.map_err(|e| e.to_string()));
+        });
+        self.chain().asynchronous_process_lonely_block(LonelyBlock { block: Arc::new(block.clone()), switch: None, verify_callback: Some(cb) });
+        idx
+    }
+
     /// Explicit quiescence (never a sleep deciding a verdict): the genesis sentinel proves the
     /// service thread has handled everything sent before; then every delivery must have its
     /// verdict or be held in the orphan pool.
